@@ -3,9 +3,11 @@
   qmail-remote's exit status and output (NUL-terminated reports) into the one report line relayed
   to qmail-send for the delivery.
 
-  `s` is the collected output (`d[i].output`, a stralloc: *not* NUL-terminated), `slack` the bytes
-  that happen to follow it in memory: `substdio_puts(ss,s + k + 1)` is a C-string copy and runs past
-  `len` when the second report lacks its terminating NUL (see `cstr`).
+  `s` is the collected output (`d[i].output`, a stralloc: *not* NUL-terminated). The first text is
+  copied with `substdio_puts(ss,s + 1)` only after a NUL at an index ≥ 1 was found, so it ends inside
+  `s`; the second one with `substdio_put(ss,s + k + 1,byte_chr(s + k + 1,len - k - 1,0))`: up to the
+  next NUL or, if the child's output does not end with one, up to `len` — never beyond it
+  (`cstr` on the remaining bytes of `s`).
 -/
 import Nq.Basic
 import Nq.RemoteSmtp
@@ -54,7 +56,7 @@ def orrOf (s : Bytes) (result : Int) : Int :=
 
 /-- the text part: first record without its letter, then (if the message result is not better than
     the recipient's) the text of the record that follows, when that starts with Z, D or K -/
-def tailOf (s slack : Bytes) (result orr : Int) : Bytes :=
+def tailOf (s : Bytes) (result orr : Int) : Bytes :=
   match s with
   | [] => []
   | _ :: s1 =>
@@ -64,12 +66,12 @@ def tailOf (s slack : Bytes) (result orr : Int) : Bytes :=
       cstr s1 ++
       (if result ≤ orr then
         match rest with
-        | c :: rest' => if c = cZ ∨ c = cD ∨ c = cK then cstr (rest' ++ slack) else []
+        | c :: rest' => if c = cZ ∨ c = cD ∨ c = cK then cstr rest' else []
         | [] => []
        else [])
 
 /-- `report()`; `wstat` is the wait status (`wait_crashed` = low 7 bits, `wait_exitcode` = `>> 8`) -/
-def rreport (wstat : Nat) (s slack : Bytes) : Bytes :=
+def rreport (wstat : Nat) (s : Bytes) : Bytes :=
   if wstat % 128 ≠ 0 then lit "Zqmail-remote crashed.\n"
   else if wstat / 256 = 111 then lit "ZUnable to run qmail-remote.\n"
   else if wstat / 256 ≠ 0 then lit "DUnable to run qmail-remote.\n"
@@ -77,6 +79,6 @@ def rreport (wstat : Nat) (s slack : Bytes) : Bytes :=
   else
     let result := scan .start s
     let orr := orrOf s result
-    letterOf orr ++ tailOf s slack result orr
+    letterOf orr ++ tailOf s result orr
 
 end Nq.RspawnReport
